@@ -82,7 +82,7 @@ pub fn generate(rng: &mut Rng, thorough: bool, out: &mut Out) {
         let (q, r) = run_chamfer(s, o);
         out.case(q, r);
     }
-    let n = if thorough { 20000 } else { 1500 };
+    let n = if thorough { 20000 } else { 4000 };
     for i in 0..n {
         let (q, r) = match i % 7 {
             0 => {
